@@ -44,9 +44,15 @@ Definition f_div (a b : oq) : oq :=
 (* an elementwise real function (the normalized Gaussian): NaN stays NaN *)
 Definition f_map (g : Q -> Q) (a : oq) : oq := match a with Some x => Some (g x) | None => None end.
 
+(* exact rational addition on the least common denominator (equal to Qplus as a rational, lemma
+   [q_add_correct]; keeps the numbers of the executable code small) *)
+Definition q_add (x y : Q) : Q :=
+  let '(g, (bb, dd)) := Z.ggcd (Zpos (Qden x)) (Zpos (Qden y)) in
+  Qmake (Qnum x * dd + Qnum y * bb) (Z.to_pos (Zpos (Qden x) * dd)).
 (* np.nansum of a list: NaN counts for 0 *)
-Definition nansum_list (l : list oq) : oq :=
-  Some (fold_right (fun o acc => match o with Some x => (x + acc)%Q | None => acc end) 0%Q l).
+Definition nansum_q (l : list oq) : Q :=
+  fold_right (fun o acc => match o with Some x => q_add x acc | None => acc end) 0%Q l.
+Definition nansum_list (l : list oq) : oq := Some (nansum_q l).
 
 (* ---------------------------------------------------------------- python scalars *)
 (* int(q) of a float: truncation toward zero *)
